@@ -298,6 +298,14 @@ class Evaluator:
             if not (isinstance(l, int) and isinstance(r, int)) or isinstance(l, bool) or isinstance(r, bool):
                 raise Unknown("ordering on non-int")
             return {"<": l < r, "<=": l <= r, ">": l > r, ">=": l >= r}[op]
+        if op in ("/", "%"):
+            if not (isinstance(l, int) and isinstance(r, int)) or isinstance(l, bool) or isinstance(r, bool):
+                raise Unknown("arith on non-int")
+            if r == 0:
+                raise Panic("division-by-zero", e.get("l"))
+            if l < 0 or r < 0:
+                raise Unknown("signed division")
+            return l // r if op == "/" else l % r
         if op in ("+", "-", "*"):
             if not (isinstance(l, int) and isinstance(r, int)):
                 raise Unknown("arith on non-int")
@@ -343,6 +351,11 @@ class Evaluator:
                 return some(self.eval(e["args"][0], env))
             if "call:" + "::".join(f["path"][-2:]) in self.hooks:
                 return self.hooks["call:" + "::".join(f["path"][-2:])](self, None, [self.eval(a, env) for a in e["args"]], e, env)
+            if name in ("min", "max") and len(e["args"]) == 2 and (len(f["path"]) == 1 or f["path"][-2] == "cmp"):
+                a_, b_ = self.eval(e["args"][0], env), self.eval(e["args"][1], env)
+                if isinstance(a_, int) and isinstance(b_, int) and not isinstance(a_, bool) and not isinstance(b_, bool):
+                    return min(a_, b_) if name == "min" else max(a_, b_)
+                raise Unknown("min/max of non-int")
             if name == "Ok" and len(e["args"]) == 1:
                 return ok(self.eval(e["args"][0], env))
             if name == "Err" and len(e["args"]) == 1:
